@@ -510,7 +510,8 @@ KIND = {
     "w": [4, 8, 0, 1, 2, 16, -4, 1 << 32, 1 << 64],
     "q": INTS + SQUARES,
     "b": BINS,
-    "m": [b"", b"\x00", b"\x01", b"\x01\x00", b"\x00\x01", b"\x01\x01", b"\x00\x02\x00\x01"],
+    # masks: canonical 0/1 and non-canonical ones (any non-zero byte selects), incl. masks whose bytes SUM to the lane count
+    "m": [b"", b"\x00", b"\x01", b"\x01\x00", b"\x00\x01", b"\x01\x01", b"\x00\x02\x00\x01", b"\x02\x00", b"\x00\x02", b"\xff\x00", b"\x00\x03\x00", b"\x02\x00\x01\x01", b"\x02", b"\x80\x80"],
 }
 
 
@@ -645,8 +646,7 @@ def replay(path):
         src = ce["input"]["args"][0]
         print("  program: %s" % src)
         print("  recorded: %s" % ce["input"]["observed"].get("why"))
-        prop = rep.get("property")
-        r = progsearch.check_tail_shapes(quiv) if prop == "C16" else progsearch.check_heap_progs(quiv)
+        r = progsearch.search_all()
         still = [f for f in r["failures"] if f["source"] == src]
         print("  => %s" % ("REPRODUCED: " + still[0]["why"] if still else "passes now (not reproduced)"))
         return 1 if still else 0
@@ -658,6 +658,10 @@ def replay(path):
         print("  expected (reference model): %s" % ce["input"]["expected"])
         print("  observed now on /repo:      %s" % json.dumps(got))
         name = ce["input"]["builtin"]
+        if name == "@transfer":
+            ok = got is not None and "ok" in got and got["ok"].get("same") is True
+            print("  => %s" % ("both ends agree now (not reproduced)" if ok else "REPRODUCED"))
+            return 0 if ok else 1
         model, kinds = BUILTINS[name]
         # re-evaluate agreement on the current tree
         args = []
@@ -684,3 +688,43 @@ def replay(path):
         for x in r.infra:
             print("  undecided: %s" % x)
     return rc
+
+
+# ---------------------------------------------------------------------------------------------
+# cross-heap transfer on the real code (bounded stand-in for unit `transfer`)
+
+
+def FN(*caps):
+    return {"fn": list(caps)}
+
+
+def transfer_values():
+    b1 = B(b"\x0a\x1b\x2c\x3d")
+    b2 = B(b"\xde\xad", "concat")
+    b3 = B(b"\x01\x02\x03\x04\x05", "slice")
+    b4 = B(b"\x00\x00\x00", "zero")
+    e = B(b"")
+    vals = [
+        b1, I(7), {"nil": True}, {"ref": 42},
+        T(b1, I(7)), T(I(7), b1), T(b1, b2), T(b1, b1), T(b2, b1, b2),
+        FN(b1), FN(b1, b2), FN(), FN(I(1)),
+        T(FN(b1), I(7)), T(I(7), FN(b1)), T(FN(b1), FN(b2)), T(FN(b1), b2), T(FN(b1), {"nil": True}),
+        T(T(b1), I(1)), T(T(FN(b1)), I(1)), T(T(T(b3))), FN(T(b1, b2)), FN(FN(b1)), FN(T(FN(b3), b4)),
+        T(b1, b2, b3, b4, e), T(e, e), FN(e), T(FN(b1, b1), b1), T(I(1), I(2), I(3)), T(FN(I(1)), I(2)),
+        T(FN(T(b1, FN(b2))), T(b3, FN(b4, b1)), b2),
+    ]
+    return vals
+
+
+def transfer_grid():
+    """Every structured value above is built in one heap, extracted, injected into another (populated) heap on the
+    REAL code; the two ends must render identically and the receiver's own binaries must be untouched."""
+    binary = build_replay()
+    calls = [{"builtin": "@transfer", "arg": v} for v in transfer_values()]
+    res = run_calls(binary, calls)
+    dis = []
+    for c, got in zip(calls, res):
+        ok = got is not None and "ok" in got and got["ok"].get("same") is True
+        if not ok:
+            dis.append({"builtin": "@transfer", "args": [json.dumps(c["arg"])[:300]], "rope_shape": "-", "expected": ["same content at both ends, receiver untouched"], "observed": got, "call": c})
+    return {"calls": len(calls), "disagreements": dis}
